@@ -11,5 +11,7 @@ func selftest(seed int64) int {
 func setupGenStubs() map[string]string {
 	g := &matchGen{Pool: []string{"/a"}, Paths: []string{"/a"}, Hosts: []string{"a.b"}, MaxTab: 1}
 	sg := &serveGen{Pool: []string{"/a"}, EnumN: 1, EntryMethods: []string{"GET"}, ReqMethods: []string{"GET"}, Paths: []string{"/a"}, Host: "a.b", MaxTab: 1}
-	return map[string]string{"Gen_Match.tla": g.tla(false), "Gen_Serve.tla": sg.tla()}
+	rg := &routerGen{Pool: []string{"/a"}, Methods: []string{"GET"}, MaxOps: 1, MaxParams: 65535, MaxKey: 65535, Trunc: [][]int{{}}, Kinds: []string{"Handle"}, Settled: []string{"Handle"},
+		Probes: []probeReq{{1, "", "/a"}}, Prefixes: []prefixReq{{[]int{1}, "/"}}}
+	return map[string]string{"Gen_Match.tla": g.tla(false), "Gen_Serve.tla": sg.tla(), "Gen_Router.tla": rg.tla(), "Gen_Probe.tla": rg.probeTLA([][][2]int{{{1, 1}}})}
 }
